@@ -144,6 +144,12 @@ func runPubScenario(sc J) []stepResult {
 			min["remoteDocs"] = docs
 			min["inboxFor"] = world.spec["inboxFor"]
 			min["owned"] = world.spec["owned"]
+			min["maxDeliveryDepth"] = world.spec["maxDeliveryDepth"]
+			// the sender: the actor the application names for this outbox, and its stored document
+			if owner, ok := jmap(world.spec["actorForOutbox"])[box].(string); ok {
+				min["sender"] = owner
+				min["senderDoc"] = jmap(world.spec["store"])[owner]
+			}
 		}
 		obs := J{}
 		func() {
